@@ -106,7 +106,7 @@ func (w *CliWorld) execRelay(op *Op, cli *turn.Client) bool {
 			Fatalf("build data ind: %v", err)
 		}
 		w.mu.Lock()
-		w.injected = append(w.injected, injRec{T: w.K.Now(), Peer: ustr(peer), Data: payload, Known: true})
+		w.injected = append(w.injected, injRec{T: w.K.Now(), Peer: ustr(peer), Data: payload, Known: true, Sure: true})
 		w.mu.Unlock()
 		w.Net.SendUDP(w.SrvAddr, w.cliAddr, m.Raw)
 	case "srv_chandata":
@@ -122,7 +122,18 @@ func (w *CliWorld) execRelay(op *Op, cli *turn.Client) bool {
 				}
 			}
 		}
-		w.injected = append(w.injected, injRec{T: w.K.Now(), Peer: peer, Data: payload, Chan: uint16(op.A.Chan), Known: known})
+		sure := false
+		if at, ok := w.chanSeenAt[uint16(op.A.Chan)]; ok && w.K.Now() > at+w.P.Cfg.LatCSns+ms {
+			// the server has the ChannelBind request for this number; it accepts every one
+			// unless the plan scripts a reaction to ChannelBind
+			sure = true
+			for _, re := range w.P.Reactions {
+				if (re.Method == "" || re.Method == "chanbind") && re.Do != "ok" {
+					sure = false // (a delayed success is still an acceptance: the binding exists from the receipt on)
+				}
+			}
+		}
+		w.injected = append(w.injected, injRec{T: w.K.Now(), Peer: peer, Data: payload, Chan: uint16(op.A.Chan), Known: known, Sure: sure})
 		w.mu.Unlock()
 		w.Net.SendUDP(w.SrvAddr, w.cliAddr, buildChannelData(uint16(op.A.Chan), payload, true))
 	case "srv_connattempt":
@@ -191,6 +202,12 @@ func (w *CliWorld) relayWire(rec *wireRec, now int64) {
 			w.viol("C13", "shared-or-invalid-channel", kv("why", "two-numbers"), "peer %s bound to 0x%04x and 0x%04x", rec.Peer, n, rec.Chan)
 		}
 		w.chanSeen[rec.Chan] = rec.Peer
+		if w.chanSeenAt == nil {
+			w.chanSeenAt = map[uint16]int64{}
+		}
+		if _, ok := w.chanSeenAt[rec.Chan]; !ok {
+			w.chanSeenAt[rec.Chan] = rec.T
+		}
 		w.peerChan[rec.Peer] = rec.Chan
 	case "send-ind":
 		ip := mustUDPAddr(rec.Peer).IP.String()
@@ -321,6 +338,31 @@ func (w *CliWorld) checkRelay(final bool) {
 	if final {
 		// every injected payload that had a reader waiting must have been delivered when nothing was lost
 		w.livenessRelay(now, stalled)
+		// a reader that waited to the end with no deadline, while a payload the client had to
+		// accept was relayed to it (relay open, queue far from full) and never came out
+		allocEnd := int64(-1)
+		for _, c := range w.calls {
+			if c.Kind == "alloc" && c.Done && c.Err == nil {
+				allocEnd = c.TEnd
+			}
+		}
+		var waiting *callRec
+		for _, c := range w.calls {
+			if c.Kind == "readfrom" && !c.Done && w.unblockInstant(c) < 0 {
+				waiting = c
+			}
+		}
+		if waiting != nil && allocEnd >= 0 && len(w.injected) < 900 && !w.lostReported {
+			for i, in := range w.injected {
+				if used[i] || !in.Sure || in.T <= allocEnd+ms || (w.relayClosed && in.T >= w.relayClosedAt-sec) || (w.closed && in.T >= w.closedAt-sec) {
+					continue
+				}
+				w.lostReported = true
+				w.viol("C13", "read-lost", kv("form", map[bool]string{true: "chandata", false: "data"}[in.Chan != 0]),
+					"payload of %d bytes relayed by the server at %d (peer %s, channel 0x%04x) was never returned although a ReadFrom (since %d) waited to the end of the run", len(in.Data), in.T, in.Peer, in.Chan, waiting.TStart)
+				break
+			}
+		}
 	}
 }
 
